@@ -27,6 +27,11 @@ pub fn viol(class: &str, detail: String) {
         }
     });
 }
+/// Replaces the recorded violation (used when the recorded one is a listed known
+/// finding and a different, unlisted one turns up in the same execution).
+pub fn viol_replace(class: &str, detail: String) {
+    VIOLATION.with(|v| *v.borrow_mut() = Some(Violation { class: class.to_string(), detail }));
+}
 pub fn has_violation() -> bool {
     VIOLATION.with(|v| v.borrow().is_some())
 }
